@@ -27,5 +27,7 @@ void vp_native_model_assume(int c);
 #else
 #define VP_ASSERT(c, m) __CPROVER_assert(c, m)
 #endif
+/* C++ pointer difference (null - null is 0) */
+#define __vp_pdiff(a, b) ({ char* a_ = (a); char* b_ = (b); a_ == b_ ? (uint64_t)0 : (uint64_t)(a_ - b_); })
 static inline char* __vp_new_typed(unsigned long n, char* p) { __CPROVER_assume(p != 0); return p; }
 #endif
